@@ -148,8 +148,8 @@ def interpreted(fn, rec=None, extra=None, helpers=()):
     if extra:
         g.update(extra)
     for h in helpers:
-        if h in f.__globals__:
-            g[h] = interpreted(f.__globals__[h], rec, extra)
+        if h in f.__globals__ and f.__globals__[h] is not fn:
+            g[h] = interpreted(f.__globals__[h], rec, extra, helpers=[x for x in helpers if x != h])
     # called from the interpreter an njit function raises on float division by zero; inside compiled callers it
     # follows IEEE (inf / nan): give the interpreted copy the IEEE behaviour
     if "ws2d" in g and hasattr(g["ws2d"], "py_func"):
@@ -160,4 +160,69 @@ def interpreted(fn, rec=None, extra=None, helpers=()):
     # numba's prange is range in the interpreter
     if "numba" in g:
         g["numba"] = types.SimpleNamespace(prange=range)
-    return types.FunctionType(f.__code__, g, f.__name__, f.__defaults__, f.__closure__)
+    code = f.__code__
+    if not f.__closure__:
+        code = static_pow_code(f) or code
+        g["_static_pow"] = static_pow
+    return types.FunctionType(code, g, f.__name__, f.__defaults__, f.__closure__)
+
+
+def static_pow(x, k):
+    """x ** k for a literal integer k the way numba lowers it (static_power_impl): repeated multiplication,
+    so x ** 2 is x * x and not libm's pow(x, 2.0), which differs from it in the last bit for some x"""
+    if abs(k) > 0x10000:
+        return x ** k
+    inv, e = k < 0, abs(k)
+    r, a = None, x
+    while e:
+        if e & 1:
+            r = a if r is None else r * a
+        e >>= 1
+        if e:
+            a = a * a
+    if r is None:
+        r = x * 0 + 1
+    return 1.0 / r if inv else r
+
+
+def static_pow_code(f):
+    """code object of f with every `expr ** <int literal>` rewritten to _static_pow(expr, k); None if nothing to rewrite"""
+    import ast
+    import inspect
+    import textwrap
+    try:
+        src = textwrap.dedent(inspect.getsource(f))
+    except (OSError, TypeError):
+        return None
+    if "**" not in src:
+        return None
+    tree = ast.parse(src)
+    fd = tree.body[0]
+    if not isinstance(fd, ast.FunctionDef):
+        return None
+    fd.decorator_list = []
+    hits = []
+
+    class T(ast.NodeTransformer):
+        def visit_BinOp(self, node):
+            self.generic_visit(node)
+            k = node.right
+            neg = False
+            if isinstance(k, ast.UnaryOp) and isinstance(k.op, ast.USub):
+                k, neg = k.operand, True
+            if isinstance(node.op, ast.Pow) and isinstance(k, ast.Constant) and type(k.value) is int:
+                hits.append(1)
+                return ast.copy_location(ast.Call(func=ast.Name(id="_static_pow", ctx=ast.Load()),
+                                                  args=[node.left, ast.Constant(value=-k.value if neg else k.value)], keywords=[]), node)
+            return node
+
+    T().visit(tree)
+    if not hits:
+        return None
+    ast.fix_missing_locations(tree)
+    ast.increment_lineno(tree, f.__code__.co_firstlineno - 1)
+    mod = compile(tree, f.__code__.co_filename, "exec")
+    for c in mod.co_consts:
+        if isinstance(c, types.CodeType) and c.co_name == f.__name__:
+            return c
+    return None
